@@ -335,6 +335,7 @@ package testscript
 //@   ensures ts.archive == old(ts.archive) && ts.scriptUpdates == old(ts.scriptUpdates)
 //@   ensures forall K {at(ts.background,K)} :: lo(ts.background) <= K && K < hi(ts.background) ==> at(ts.background,K).cmd != nil
 //@   at call (*testscript.TestScript).callBuiltinCmd#1: requires cmd != nil
+//@   at call (*testscript.TestScript).condition#1: requires want == !(len(TrimSpace(mkseq(arrof(at(args, lo(args)-1)), lo(at(args, lo(args)-1))+1, hi(at(args, lo(args)-1))-1))) >= 1 && at(TrimSpace(mkseq(arrof(at(args, lo(args)-1)), lo(at(args, lo(args)-1))+1, hi(at(args, lo(args)-1))-1)), lo(TrimSpace(mkseq(arrof(at(args, lo(args)-1)), lo(at(args, lo(args)-1))+1, hi(at(args, lo(args)-1))-1)))) == '!')
 //@   loop 1: invariant len(args) >= 1
 
 // run: no line is run after a failure unless ContinueOnError; nothing is run after
@@ -369,6 +370,7 @@ package testscript
 //@   modifies H_Str
 //@   loop 1: invariant -1 <= rangeindex && rangeindex < len(args)
 //@   loop 1: invariant forall K {at(args,K)} :: lo(args) <= K && K <= lo(args) + rangeindex ==> fsExists[isAbsP(at(args,K)) ? at(args,K) : joinP(ts.cd, at(args,K))] != neg
+//@   ensures forall K {at(my_args,K)} :: lo(my_args) <= K && K < hi(my_args) ==> fsExists[isAbsP(at(my_args,K)) ? at(my_args,K) : joinP(ts.cd, at(my_args,K))] != neg
 
 // stdout / stderr / grep: a normal return means the pattern matched (or with ! did not
 // match), and with -count=N that it matched exactly N times.
